@@ -129,6 +129,19 @@ type strer2 struct {
 
 func (s strer2) String() string { return s.s }
 
+// types with a method NAMED String that is not func() string
+type badStr1 struct{ n int }
+
+func (badStr1) String() []byte { return []byte("b") }
+
+type badStr2 struct{ n int }
+
+func (badStr2) String(i int) string { return "s" }
+
+type badStr3 struct{ n int }
+
+func (badStr3) String() (string, error) { return "s", nil }
+
 type privStruct struct {
 	a int
 	B string
@@ -136,7 +149,7 @@ type privStruct struct {
 
 func awkFunc() {}
 
-const nAwk = 27
+const nAwk = 35
 
 // awkward returns the k-th value of the catalogue of awkward Go values.
 func (w *World) awkward(k int) any {
@@ -197,6 +210,22 @@ func (w *World) awkward(k int) any {
 	case 26:
 		var pp **stackage.Stack
 		return &pp
+	case 27:
+		return w.mp2 // same type and length as 8, another key
+	case 28:
+		return []*int{nil}
+	case 29:
+		return [1]*int{nil}
+	case 30:
+		return map[string]any{"a": nil}
+	case 31:
+		return []any{nil, (*int)(nil)}
+	case 32:
+		return badStr1{1}
+	case 33:
+		return badStr2{1}
+	case 34:
+		return &badStr3{1}
 	}
 	return nil
 }
@@ -235,6 +264,14 @@ func (w *World) val(v Val) any {
 		return userOp{v.S, ctx}
 	case "fop":
 		return flipOp{w, v.S}
+	case "pstr":
+		// a pointer to a string, the same pointer every time it is asked for
+		if p, ok := w.pstrs[v.S]; ok {
+			return p
+		}
+		s := v.S
+		w.pstrs[v.S] = &s
+		return &s
 	case "strer":
 		if v.D == 1 {
 			return strer2{v.S, 1}
@@ -403,6 +440,16 @@ func (w *World) describeD(x any, depth int) string {
 		return "uop(" + v.text + "," + v.ctx + ")"
 	case flipOp:
 		return "fop(" + v.name + ")"
+	case *string:
+		if v == nil {
+			return "nil(*string)"
+		}
+		for k, p := range w.pstrs { // order-free: at most one match
+			if p == v {
+				return "pstr(" + k + ")"
+			}
+		}
+		return "ptr(*string)"
 	case strer:
 		return "strer(" + v.s + ")"
 	case strer2:
